@@ -1,6 +1,6 @@
 #!/usr/bin/env python3
 """Collects verified seeded changes from /tmp/seed-<id>/out/<n> into /verif/seeded/<id>-<n>/ using the
-summary lines of tools/seedcheck.sh (latest line per seed wins)."""
+summary lines of tools/seedcheck.sh (latest line per seed wins; check results are merged)."""
 import json, os, re, shutil, sys, glob
 logs = sys.argv[1:]
 res = {}
@@ -13,7 +13,11 @@ for lg in logs:
         checks = {}
         for cm in re.finditer(r"(C\d+)=(\d+)\[([^\]]*)\]", rest):
             checks[cm.group(1)] = {"exit": int(cm.group(2)), "signatures": [s for s in cm.group(3).split(";") if s]}
-        res[(pid, n)] = dict(demo_clean=dc, suite=suite, demo_patched=dp, checks=checks)
+        # the verification fields of the latest line win; check results are merged over the lines (a later
+        # line may have run other properties' checks against the same change)
+        prev = res.get((pid, n), {}).get("checks", {})
+        prev.update(checks)
+        res[(pid, n)] = dict(demo_clean=dc, suite=suite, demo_patched=dp, checks=prev)
 for (pid, n), r in sorted(res.items()):
     off = int(os.environ.get("SEED_OFFSET", "0"))
     src = "%s%s/out/%s" % (os.environ.get("SEED_PREFIX", "/tmp/seed-"), pid, int(n) - off)
